@@ -115,6 +115,7 @@ static void syn_render(struct syn_desc *d)
     if (l->indexes) sb_printf(&b, "(indexes=%s)", l->indexes);
     for (int k = 0; k < l->attached_numa; k++) {
       sb_puts(&b, " [numa");
+      if (k < 3 && l->numa_attrs[k]) { if (l->numa_attrs[k][0]) sb_printf(&b, "(%s)", l->numa_attrs[k]); sb_putc(&b, ']'); continue; }
       if (l->type != HWLOC_OBJ_NUMANODE && (l->memory || l->mscache)) { sb_putc(&b, '('); if (l->memory) sb_printf(&b, "memory=%llu", l->memory); if (l->memory && l->mscache) sb_putc(&b, ' '); if (l->mscache) sb_printf(&b, "memorysidecachesize=%llu", l->mscache); sb_putc(&b, ')'); }
       sb_putc(&b, ']');
     }
@@ -230,6 +231,24 @@ uint64_t univ_syn_enumerate(int scope, syn_cb cb, void *ctx)
       d.lv[1].type = HWLOC_OBJ_L2CACHE; d.lv[1].arity = 2; d.lv[1].size = mem ? 65536 : 0; d.lv[2].type = HWLOC_OBJ_PU; d.lv[2].arity = 1;
       syn_emit(&g, &d);
     }
+  }
+  g.family = 5;
+  /* family 5: two attached "[numa(...)]" clauses with their own attributes - memory and indexes in the first clause, in
+   * the second, in both, in either order - attached to a level of every kind, including one that the default filters
+   * remove (L1i): all the clauses of a level share one index list, and the nodes belong to the closest kept ancestor */
+  {
+    static const char *CL[] = { "", "memory=1048576", "indexes=2,3,0,1", "memory=2097152 indexes=2,3,0,1", "indexes=1,0,3,2 memory=2097152", "memory=3145728 indexes=0,2,1,3" };
+    static const int HOST[] = { HWLOC_OBJ_PACKAGE, HWLOC_OBJ_L1ICACHE, HWLOC_OBJ_L2CACHE, HWLOC_OBJ_GROUP, HWLOC_OBJ_DIE };
+    for (unsigned h = 0; h < sizeof(HOST) / sizeof(HOST[0]); h++) for (int at = 0; at < 2; at++)
+      for (unsigned c0 = 0; c0 < sizeof(CL) / sizeof(CL[0]); c0++) for (unsigned c1 = 0; c1 < sizeof(CL) / sizeof(CL[0]); c1++) {
+        memset(&d, 0, sizeof(d)); d.nlevels = 3;
+        /* the host level has 2 objects in the whole topology, so that the 2 clauses give 4 nodes */
+        if (at == 0) { d.lv[0].type = HOST[h]; d.lv[0].arity = 2; d.lv[1].type = HWLOC_OBJ_CORE; d.lv[1].arity = 2; }
+        else { d.lv[0].type = HOST[h] == HWLOC_OBJ_PACKAGE ? HWLOC_OBJ_GROUP : HWLOC_OBJ_PACKAGE; d.lv[0].arity = 1; d.lv[1].type = HOST[h] == HWLOC_OBJ_PACKAGE ? HWLOC_OBJ_DIE : HOST[h]; d.lv[1].arity = 2; }
+        d.lv[2].type = HWLOC_OBJ_PU; d.lv[2].arity = 2;
+        d.lv[at].attached_numa = 2; d.lv[at].numa_attrs[0] = CL[c0]; d.lv[at].numa_attrs[1] = CL[c1];
+        syn_emit(&g, &d);
+      }
   }
   return g.n;
 }
